@@ -66,12 +66,13 @@ func sig(c *document.TableCell) string {
 
 // shape is what the interpreter needs to know about the state before an op.
 type shape struct {
-	R, G   int
-	phys   []int  // physical cells per row
-	plain  []bool // the row has exactly G cells, all of span 1
-	rect   bool   // every row plain
-	nospan bool   // every cell has span 1: physical index = grid column in every row (rows may still be ragged)
-	merged bool   // some cell has span > 1 or a vertical-merge role
+	R, G    int
+	phys    []int  // physical cells per row
+	plain   []bool // the row has exactly G cells, all of span 1
+	rect    bool   // every row plain
+	nospan  bool   // every cell has span 1: physical index = grid column in every row (rows may still be ragged)
+	merged  bool   // some cell has span > 1 or a vertical-merge role
+	maxSpan int    // the widest cell
 }
 
 func describe(t *document.Table) shape {
@@ -84,6 +85,9 @@ func describe(t *document.Table) shape {
 		s.phys = append(s.phys, len(cells))
 		pl := len(cells) == s.G
 		for j := range cells {
+			if sp := span(&cells[j]); sp > s.maxSpan {
+				s.maxSpan = sp
+			}
 			if span(&cells[j]) != 1 {
 				pl = false
 				s.merged = true
